@@ -102,9 +102,22 @@ def c22(ctx):
         prog = G.gen_prog(rng, patch=True, mem=rng.random() < 0.5)
         if not any(x["k"] == "PATCH" for x in prog) and rng.random() < 0.7:
             prog = G.gen_prog(rng, patch=True, mem=False)
+        tmpl = rng.random()
+        if tmpl < 0.2:
+            # a string store (several IR blocks) patching an instruction that runs right after it, with no other memory
+            # access in between: same block, or the next block behind a jump
+            R = lambda: {"k": "RT", "i": rng.randrange(1, 120)}
+            k = rng.choice([1, 2])
+            prog = [R(), R(), {"k": "PATCHS", "s": 2 + k}] + ([R()] if k == 2 else []) + [R(), R()]
+            if rng.random() < 0.4:
+                prog = [R(), {"k": "PATCHS", "s": 3}, {"k": "JMP", "t": 3}, R(), R()]
         item = G.make_item(rng, prog, "rw")
         targets = [i for i, x in enumerate(prog) if x["k"] in ("RT", "PU")]
         script = [{"c": "run", "s": 0}]
+        if tmpl > 0.8 and prog[-1]["k"] in ("RT", "PU"):
+            # the translation pool is rebuilt (add_breakpoint), then only the LAST byte of the translated range is written
+            script += [{"c": "reset"}, {"c": "addbp", "s": rng.randrange(0, len(prog)), "stops": False},
+                       {"c": "patch", "s": len(prog) - 1, "v": rng.randrange(1, 120)}, {"c": "run", "s": 0}]
         if targets:
             # the host overwrites an already translated instruction between two runs
             script += [{"c": "reset"}, {"c": "patch", "s": rng.choice(targets), "v": rng.randrange(1, 120)}, {"c": "run", "s": 0}]
